@@ -29,6 +29,7 @@ type options struct {
 	workers  int
 	only     string
 	sweep    string
+	lint     bool
 	dump     string
 	verbose  bool
 	replayD  string
@@ -45,6 +46,7 @@ func main() {
 	flag.IntVar(&o.seed, "seed", 0, "seed")
 	flag.IntVar(&o.workers, "workers", 6, "parallel obligations")
 	flag.StringVar(&o.only, "only", "", "substring filter on function name (debug)")
+	flag.BoolVar(&o.lint, "lint", false, "list struct fields a contract may modify but never mentions in an ensures/checks clause")
 	flag.StringVar(&o.sweep, "sweep", "", "comma-separated package paths: give every function without a contract a safety-only contract (nopanic, pointer parameters non-nil) under property SWEEP (exploration, not a registered check)")
 	flag.StringVar(&o.dump, "dump", "", "dump SSA of function (pkgpath::name)")
 	flag.BoolVar(&o.verbose, "v", false, "verbose")
@@ -270,6 +272,9 @@ func run(o *options) int {
 		if fs.Trusted {
 			g.note("TRUSTED contract (body not verified): %s.%s", fs.Pkg, fs.Name)
 			continue
+		}
+		if o.lint {
+			lintSilentFields(fn, fs)
 		}
 		c := g.newFnCtx(fn, fs)
 		func() {
@@ -556,3 +561,45 @@ func report(o *options, g *Gen, verdicts []*Verdict, fnReports any, underContrac
 }
 
 func round3(f float64) float64 { return float64(int(f*1000)) / 1000 }
+
+// lintSilentFields: a postcondition that is silent about a field the function may modify lets a change
+// that corrupts that field verify. Reported for review, not an obligation.
+func lintSilentFields(fn *ssa.Function, fs *FuncSpec) {
+	var texts []string
+	for _, cl := range fs.Ensures {
+		texts = append(texts, cl.Text)
+	}
+	for _, cl := range fs.Checks {
+		texts = append(texts, cl.Text)
+	}
+	all := strings.Join(texts, " ")
+	for _, m := range fs.Modifies {
+		id, ok := m.E.(*EIdent)
+		if !ok {
+			continue
+		}
+		for _, prm := range fn.Params {
+			if prm.Name() != id.Name {
+				continue
+			}
+			pt, ok := prm.Type().Underlying().(*types.Pointer)
+			if !ok {
+				continue
+			}
+			st, ok := pt.Elem().Underlying().(*types.Struct)
+			if !ok {
+				continue
+			}
+			var silent []string
+			for i := 0; i < st.NumFields(); i++ {
+				f := st.Field(i).Name()
+				if !strings.Contains(all, "."+f) && !strings.Contains(all, "deref("+id.Name+")") && !strings.Contains(all, id.Name+" == ") {
+					silent = append(silent, f)
+				}
+			}
+			if len(silent) > 0 {
+				fmt.Printf("LINT %s.%s: modifies %s, postconditions silent about fields %v\n", fs.Pkg[strings.LastIndex(fs.Pkg, "/")+1:], fs.Name, id.Name, silent)
+			}
+		}
+	}
+}
